@@ -6,6 +6,7 @@ package coll
 
 import (
 	"fmt"
+	"runtime"
 	"runtime/debug"
 	"time"
 
@@ -17,9 +18,11 @@ import (
 )
 
 type C struct {
-	CP      *collector.CollectingProcess
-	Timeout time.Duration
-	Addr    string
+	CP           *collector.CollectingProcess
+	Timeout      time.Duration
+	Addr         string
+	MeasureAlloc bool
+	AllocLimit   uint64
 }
 
 func New(proto string, mode collector.DecodingMode, ttl uint32, clk collector.VerifClock) (*C, error) {
@@ -34,11 +37,11 @@ func New(proto string, mode collector.DecodingMode, ttl uint32, clk collector.Ve
 	if err != nil {
 		return nil, err
 	}
-	return &C{CP: cp, Timeout: 3 * time.Second, Addr: "127.0.0.1:4739"}, nil
+	return &C{CP: cp, Timeout: 3 * time.Second, Addr: "127.0.0.1:4739", AllocLimit: 48 << 20}, nil
 }
 
 type Outcome struct {
-	Kind  string // Err | Tmpl | Data | Panic | Hang
+	Kind  string // Err | Tmpl | Data | Panic | Hang | Alloc
 	Msg   *entities.Message
 	Err   error
 	Panic string
@@ -52,6 +55,21 @@ type result struct {
 
 // Decode feeds one message to decodePacket and returns what happened.
 func (c *C) Decode(b []byte) Outcome {
+	if !c.MeasureAlloc {
+		return c.decode(b)
+	}
+	var m0, m1 runtime.MemStats
+	runtime.ReadMemStats(&m0)
+	o := c.decode(b)
+	runtime.ReadMemStats(&m1)
+	// bounded memory: decoding one message (<= 64 KiB) must not allocate more than AllocLimit bytes
+	if d := m1.TotalAlloc - m0.TotalAlloc; d > c.AllocLimit && o.Kind != "Hang" {
+		return Outcome{Kind: "Alloc", Panic: fmt.Sprintf("decoding %d bytes allocated %d bytes", len(b), d)}
+	}
+	return o
+}
+
+func (c *C) decode(b []byte) Outcome {
 	done := make(chan result, 1)
 	go func() {
 		defer func() {
